@@ -209,6 +209,18 @@ func c18DefinedNames(r *Run, rng *Rng, mul int) {
 
 // ---------------------------------------------------------------- data validations
 
+// sheets whose names need quoting in a reference and contain XML specials; created in every DV workbook
+var c18DvSheets = []string{"P&L", "A<B", "x > y", "it's", "Q1 2024"}
+var c18DvSources = []string{"$E$1:$E$3", "Sheet1!$E$1:$E$3", "INDIRECT(\"a\"&B1)", "'P&L'!$A$1:$A$3", "'A<B'!$B$2:$B$9", "'x > y'!$C$1:$C$4", "'it''s'!$A$1:$A$2", "'Q1 2024'!$D$1:$D$5"}
+
+func c18DvBook() *xl.File {
+	f := xl.NewFile()
+	for _, s := range c18DvSheets {
+		_, _ = f.NewSheet(s)
+	}
+	return f
+}
+
 func c18DvMake(rng *Rng, sqref string, force int) (*xl.DataValidation, string, string) {
 	dv := xl.NewDataValidation(rng.Bool())
 	dv.Sqref = sqref
@@ -236,8 +248,11 @@ func c18DvMake(rng *Rng, sqref string, force int) (*xl.DataValidation, string, s
 		a, b := fs[rng.Intn(len(fs))], fs[rng.Intn(len(fs))]
 		_ = dv.SetRange(a, b, types[rng.Intn(len(types))], ops[rng.Intn(len(ops))])
 		want1, want2 = a, b
+	case force == 2: // witness: list source on a sheet whose quoted name needs XML escaping
+		dv.SetSqrefDropList("'P&L'!$A$1:$A$3")
+		want1 = "'P&L'!$A$1:$A$3"
 	case c < 9:
-		s := rng.Pick([]string{"$E$1:$E$3", "Sheet1!$E$1:$E$3", "INDIRECT(\"a\"&B1)"})
+		s := rng.Pick(c18DvSources)
 		dv.SetSqrefDropList(s)
 		want1 = s
 	default:
@@ -258,7 +273,7 @@ func c18DvMake(rng *Rng, sqref string, force int) (*xl.DataValidation, string, s
 }
 
 func c18DvCase(r *Run, rng *Rng, force int) {
-	f := xl.NewFile()
+	f := c18DvBook()
 	defer f.Close()
 	sq := []string{"A1:B2", "D1", "F3:F9", "H1:H2 J1:J2"}
 	n := rng.Range(1, 4)
@@ -709,6 +724,7 @@ func c18TableCase(r *Run, rng *Rng, noHeader bool) {
 func c18Lists(r *Run, rng *Rng, mul int) {
 	c18DvCase(r, rng, 0)
 	c18DvCase(r, rng, 1)
+	c18DvCase(r, rng, 2)
 	c18TableCase(r, rng, true)
 	for i := 0; i < 150*mul; i++ {
 		c18DvCase(r, rng, -1)
@@ -725,6 +741,7 @@ func c18Lists(r *Run, rng *Rng, mul int) {
 
 var c18ReplayDn *c18DnState
 var c18ReplayCf *c18CfHist
+var c18ReplayPh *c18ProtHist
 
 // c18ReplayMore re-executes defined-name op lines (stateful) of a replay file.
 func c18ReplayMore(r *Run, rng *Rng, line string, w []string) {
@@ -734,6 +751,13 @@ func c18ReplayMore(r *Run, rng *Rng, line string, w []string) {
 			return unhx(w[i])
 		}
 		return ""
+	}
+	if strings.HasPrefix(w[0], "ph") {
+		if c18ReplayPh == nil {
+			c18ReplayPh = &c18ProtHist{}
+		}
+		c18ReplayPh.exec(r, line)
+		return
 	}
 	if strings.HasPrefix(w[0], "cf") {
 		if c18ReplayCf == nil {
